@@ -61,6 +61,29 @@ def run(tier):
     write_ndjson(bp, bases)
     run_bin("c07", ["record", "--seed", vlib.seed() + 3, "--n", 30 if tier == "quick" else 600, "--bases", bp, "--out", tr2])
     c07.judge(chk, read_ndjson(tr2), "c03inc", tier, from_producer=False, prefix="C03")
+    # files of other producers, loaded and saved plainly: nothing of the old file's structure (Prev, XRefStm, W, Index, object
+    # streams, cross-reference streams) may leak into the new file.  Multi-revision files, every filter form, hybrid-reference
+    # sections.
+    r_h, hyb = c02.gen_files(w, "hy", 24, 40 if tier == "quick" else 400, vlib.seed() + 5, 6, 3, cfg="Gen_File_hybrid.cfg")
+    chk.add_tlc(r_h)
+    foreign = [f for f in hyb if f.get("hybrid")][:25 if tier == "quick" else 250] + bases[:25 if tier == "quick" else 250]
+    if sum(1 for f in foreign if f.get("hybrid")) < 5:
+        raise vlib.ToolError("vacuous: fewer than 5 hybrid-reference files to load and save again")
+    r3, v3, s3, t3 = lifecycle.resave_and_judge("c03", foreign, tier)
+    chk.states += s3
+    chk.transitions += t3
+    chk.extra["foreign_files_loaded_and_saved"] = len(foreign)
+    chk.extra["of_those_hybrid_reference_files"] = sum(1 for f in foreign if f.get("hybrid"))
+    for v in v3:
+        rec = r3[v["i"]]
+        if rec["ev"] != "Save":
+            continue
+        chk.case(json.dumps(rec["bytes"]) if rec["doc"]["objects"] else None)
+        if v["v"].startswith("ok"):
+            chk.traces += 1
+        else:
+            sig = "C03:resave." + v["v"] + ((":" + v["d"]["err"]) if "err" in v["d"] else "")
+            chk.violation(sig, {"verdict": v["d"], "doc": rec["doc"], "bytes": rec["bytes"], "fmt": rec["fmt"]})
     for r in recs:
         if r["ev"] == "Save" and r["res"] == "ok" and len(r["doc"]["objects"]) >= 2:
             chk.sample({"fmt": r["fmt"], "saved_bytes_ascii": bytes(r["bytes"]).decode("latin-1")[:600]}, cap=2)
